@@ -16,11 +16,14 @@ RULE = ('Generated histories by two clients (same user, shared-key user or indep
         'cache, an empty cache, the other client\'s cache, and the current cache with one entry put into an '
         'interrupted-write state (missing / empty / generated proper prefix), and a cache left behind by a child process that was '
         'really killed (os._exit) at its k-th file-system step inside the cache directory, and one long-lived Repository object '
-        'that listed the snapshots before another client\'s interrupted write damaged an entry - and stdout, return value, restored tree, '
+        'that listed the snapshots before another client\'s interrupted write damaged an entry; also with a bit flipped in a stored snapshot object (cache disabled / empty / interrupted entry) - and stdout, return value, restored tree, '
         'exception type and resulting object set must equal the cache-disabled run. Non-trivial: some universe whose cache '
         'content differs from what the backend lists (stale, foreign or truncated entry for a listed snapshot).')
 ASSUMPTIONS = ['an interrupted cache write leaves the entry missing, empty or a proper prefix',
                'stderr/log output is not part of "what a command does"']
+
+
+HANG_S = 45
 
 
 def budget(tier):
@@ -49,6 +52,8 @@ def cases(draw):
             op['file_regex'] = draw(st.sampled_from([None, None, 'p1', 'p[02]$']))
         op['damage'] = {'pick': draw(st.integers(0, 5)), 'kind': draw(st.sampled_from(['missing', 'empty', 'prefix'])),
                         'len': draw(st.integers(0, 10 ** 6))}
+        if draw(st.integers(0, 3)) == 0:
+            op['rot'] = {'offset': draw(st.integers(0, 10 ** 6)), 'bit': draw(st.integers(0, 7))}
         if draw(st.integers(0, 2)) == 0:
             op['kill'] = {'at': draw(st.integers(1, 8)), 'partial': draw(st.integers(0, 10 ** 6))}
         ops.append(op)
@@ -103,10 +108,25 @@ def _execute(case, store, cred, op, cache, work, tag, own_names, session_damage=
             return await repo.clean()
     exc = None
     res, out = None, ''
-    try:
-        res, out = world.run_cmd(backend, cred, go, concurrent=case['concurrent'], cache=cache)
-    except Exception as e:
-        exc = type(e).__name__
+    # the command runs in a thread of its own so that one that never returns (a deadlock that depends on the cache state) becomes
+    # an observation instead of a stuck shard; in-memory commands take milliseconds, HANG_S is far beyond any load effect
+    import threading
+    box = {}
+
+    def target():
+        try:
+            box['r'] = world.run_cmd(backend, cred, go, concurrent=case['concurrent'], cache=cache)
+        except Exception as e:
+            box['e'] = e
+    th = threading.Thread(target=target, daemon=True)
+    th.start()
+    th.join(HANG_S)
+    if th.is_alive():
+        exc = f'no result after {HANG_S}s (hang)'
+    elif 'e' in box:
+        exc = type(box['e']).__name__
+    else:
+        res, out = box['r']
     tree = world.read_tree(tgt) if os.path.isdir(tgt) else {}
     env.rmtree(tgt)
     if k == 'ls' and out:
@@ -276,6 +296,40 @@ def _run(case, work):
         for d in list(universes.values()):
             if d:
                 env.rmtree(d)
+        if listed and op.get('rot') and op['op'] in ('ls', 'lf', 'restore'):
+            # the stored snapshot object itself has rotted (one flipped bit) and no cache holds a complete copy of it: whatever
+            # the command does about it, it does the same with the cache disabled, empty, or holding an interrupted entry
+            victim = listed[op['damage']['pick'] % len(listed)]
+            body = store.objects[victim]
+            off = op['rot']['offset'] % max(1, len(body))
+            rotten = body[:off] + bytes([body[off] ^ (1 << op['rot']['bit'])]) + body[off + 1:] if body else b'\x00'
+            classes.append('backend-object-rotted')
+            runi = {'disabled': None, 'empty': os.path.join(work, f'u{serial}-rempty'), 'interrupted-entry': copy_cache(caches[c], 'rdmg')}
+            os.makedirs(runi['empty'])
+            p = os.path.join(runi['interrupted-entry'], victim)
+            if op['damage']['kind'] == 'missing' or not os.path.exists(p):
+                if os.path.exists(p):
+                    os.unlink(p)
+            else:
+                with open(p, 'wb') as fh:
+                    fh.write(body[:0 if op['damage']['kind'] == 'empty' else op['damage']['len'] % max(1, len(body))])
+            robs = {}
+            for label, cache in runi.items():
+                st_ = store.copy()
+                st_.objects[victim] = rotten
+                robs[label] = _execute(case, st_, cred, op, cache, work, f'{serial}-rot-{label}', names)
+            for label, o in robs.items():
+                if o != robs['disabled']:
+                    diff = [k for k in o if robs['disabled'][k] != o[k]]
+                    return Outcome(fail('cache-dependent', f'{op["op"]} by client {c} on a repository whose snapshot object has a flipped bit '
+                                        f'behaves differently with cache universe {label!r} than with the cache disabled: differs in {diff}; '
+                                        f'exception {o["exception"]!r} vs {robs["disabled"]["exception"]!r}',
+                                        universe='rot:' + label, differs=diff, step=step, exception=o['exception'],
+                                        reference_exception=robs['disabled']['exception']), classes, True)
+            nontrivial = True
+            for d in runi.values():
+                if d:
+                    env.rmtree(d)
         # now for real, with the client's own cache
         real = _execute(case, store, cred, op, caches[c], work, f'{serial}-real', names)
         if op['op'] == 'delete' and real['exception'] is None:
